@@ -62,6 +62,9 @@ pub struct TableModel {
     pub evals: Arc<AtomicU64>,
     /// family "ladder": how often the join of each level has been computed (rendezvous of the two rails)
     arrivals: Arc<Vec<AtomicU64>>,
+    /// set when the poisoned node is evaluated (just before the panic); evaluations begun afterwards are counted
+    poisoned: Arc<std::sync::atomic::AtomicBool>,
+    pub after_poison: Arc<AtomicU64>,
 }
 
 fn leak(s: &str) -> &'static str {
@@ -85,14 +88,25 @@ impl TableModel {
             names,
             evals: Arc::new(AtomicU64::new(0)),
             arrivals: Arc::new((0..levels).map(|_| AtomicU64::new(0)).collect()),
+            poisoned: Arc::new(std::sync::atomic::AtomicBool::new(false)),
+            after_poison: Arc::new(AtomicU64::new(0)),
         }
     }
     fn sat(&self, i: usize, s: u32) -> bool {
         if self.g.poison != 0 && s == self.g.poison {
+            self.poisoned.store(true, Ordering::SeqCst);
             panic!("poisoned node evaluated");
         }
         if i == 0 {
             self.evals.fetch_add(1, Ordering::SeqCst);
+            if self.g.poison != 0 && self.poisoned.load(Ordering::SeqCst) {
+                self.after_poison.fetch_add(1, Ordering::SeqCst);
+                if self.g.family == "twochains" {
+                    // evaluations after the panic are slow, so that "how many more" does not depend on how long the
+                    // panicking worker takes to unwind
+                    std::thread::sleep(Duration::from_micros(200));
+                }
+            }
         }
         let p = &self.g.props[i];
         match p.mode.as_str() {
@@ -141,6 +155,8 @@ impl TableModel {
                 }
                 v
             }
+            // two disjoint chains: odd nodes and even nodes
+            "twochains" => vec![if s + 2 <= g.n { s + 2 } else { 0 }],
             // binary tree (heap numbering) with n nodes
             "tree" => {
                 let n = g.n as i64;
@@ -633,7 +649,8 @@ pub fn run_one(g: &Graph, cfg: &Cfg) -> Value {
             "unique": o.unique, "total": o.total, "max_depth": o.max_depth,
             "discoveries": o.discoveries, "disc_panicked": o.disc_panicked,
             "assert_panicked": o.assert_panicked, "handles_left": o.handles_left,
-            "wall_ms": o.wall_ms as u64, "spawn_panicked": false, "evals": model.evals.load(Ordering::SeqCst)}),
+            "wall_ms": o.wall_ms as u64, "spawn_panicked": false, "evals": model.evals.load(Ordering::SeqCst),
+            "evals_after_poison": model.after_poison.load(Ordering::SeqCst)}),
         None => json!({
             "joined": false, "join_panicked": false, "is_done": false, "unique": 0, "total": 0,
             "max_depth": 0, "discoveries": [], "disc_panicked": false, "assert_panicked": false,
